@@ -5,6 +5,7 @@ open Lnc_model
 open Zconv
 
 let side_of s = if s = "0" then SA else SB
+let is_handshaking (_ : string list) = true
 
 let parse_kv (tok : string) : string * string =
   match String.index_opt tok '=' with
@@ -43,6 +44,11 @@ let run_file (file : string) : int * int =
   let scen = ref 0 and bad = ref 0 in
   let st = ref None and id = ref "" and idx = ref 0 and failed = ref false and events = ref 0 in
   let lines_kept = Queue.create () in
+  (* A data-phase packet that reaches an endpoint whose handshake has not returned yet is read by the handshake
+     code and discarded there (serverHandshake: DATA / SYNACK after a restart complete the handshake and are not
+     processed). For the data-phase monitor that delivery is a loss: `CH x deliver` becomes a drop and the RX that
+     follows is skipped; with `keep` the retained copy stays in the channel and nothing else happens. *)
+  let hs_done = [| false; false |] and swallow = [| false; false |] and saw_hs = ref false in
   let total_events = ref 0 in
   (try
      while true do
@@ -51,17 +57,31 @@ let run_file (file : string) : int * int =
        (match toks with
         | "BEGIN" :: i :: rest ->
           id := i; idx := 0; failed := false; Queue.clear lines_kept;
-          let n = ref 1 and chunk = ref 0 in
+          hs_done.(0) <- false; hs_done.(1) <- false; swallow.(0) <- false; swallow.(1) <- false; saw_hs := false;
+          let n = ref 1 and chunk = ref 0 and srvchunk = ref (-1) in
           List.iter (fun t -> let (k, v) = parse_kv t in
-                      if k = "n" then n := int_of_string v else if k = "chunk" then chunk := int_of_string v) rest;
-          st := Some (minit (z_of_int !n) (z_of_int !chunk) (z_of_int !chunk));
+                      if k = "n" then n := int_of_string v else if k = "chunk" then chunk := int_of_string v
+                      else if k = "srvchunk" then srvchunk := int_of_string v) rest;
+          if !srvchunk < 0 then srvchunk := !chunk;
+          st := Some (minit (z_of_int !n) (z_of_int !chunk) (z_of_int !srvchunk));
           incr scen
         | "END" :: _ -> st := None
         | _ ->
           (match !st with
            | None -> ()
            | Some s when not !failed ->
+             let peer_ix x = if x = "0" then 1 else 0 in
+             let head_is_data_phase x =
+               match (if x = "0" then s.m_chA else s.m_chB) with
+               | (TgData | TgCtrl) :: _ -> true
+               | _ -> false in
              let ev = match toks with
+               | ["HS"; x; "ok"] -> hs_done.(int_of_string x) <- true; saw_hs := true; None
+               | ["CH"; x; "deliver"] when not hs_done.(peer_ix x) && head_is_data_phase x && is_handshaking toks ->
+                 swallow.(peer_ix x) <- true; Some (MCh (side_of x, Drop))
+               | ["CH"; x; "keep"] when not hs_done.(peer_ix x) && head_is_data_phase x && is_handshaking toks ->
+                 swallow.(peer_ix x) <- true; None
+               | ["RX"; x; _] when swallow.(int_of_string x) -> swallow.(int_of_string x) <- false; None
                | ["SC"; x; h] -> Some (MSendCall (side_of x, bytes_of_hex h))
                | ["SR"; x; r] -> Some (MSendRet (side_of x, r = "ok"))
                | ["RC"; x] -> Some (MRecvCall (side_of x))
